@@ -90,6 +90,7 @@ func ImportModuleLevelObject(ctx Context, name string, globals, locals StringDic
 	if impl := GetModuleImpl(name); impl != nil {
 		module, err := ctx.ModuleInit(impl)
 		if err != nil {
+			ctx.Store().removeModule(name)
 			return nil, err
 		}
 		return module, nil
@@ -126,6 +127,11 @@ func ImportModuleLevelObject(ctx Context, name string, globals, locals StringDic
 
 	module, err := RunCode(ctx, out.Code, out.FileDesc, name)
 	if err != nil {
+		// The module was registered before its body ran (so that
+		// circular imports work).  Don't leave the half
+		// initialised module behind or the next import of it
+		// would succeed without running the body.
+		ctx.Store().removeModule(name)
 		return nil, err
 	}
 
